@@ -350,6 +350,13 @@ def s_move_initializers(ctx):
     ctx.check("C04.folding.move_initializers.existing_initializers_untouched", all(dst_inits.get(n) == "main_" + n for n in dst_names), CL04)
     ctx.check("C04.folding.move_initializers.names_unique_in_the_destination", all(dst_inits[v.fields["name"]] is v for v in moved),
               "C04: 'value names are unique'")
+    # C15 frame: on the ModelProto entry of optimize() the IR initializers are views of the caller's TensorProtos
+    # (onnx_ir: deserialize_model wraps them in TensorProtoTensor; ir.Value.name = s also sets const_value.name, and
+    # TensorProtoTensor.name writes proto.name — cross-checked natively in tools/engine_selftest.py).  A functional variant must
+    # therefore not rename, in place, an initializer object that came from the argument.
+    renamed = [o for o, f in I.heap_writes if f == "name" and any(o is v for v in src_vals.values())]
+    ctx.check("C15.optimizer.optimize.proto_form.argument_not_written_through_a_renamed_initializer", not renamed,
+              "C15: 'In-place variants mutate the object they were given; the others leave their argument unchanged'")
 
 
 SCENARIOS.append(Scenario("C04.folding.move_initializers", s_move_initializers, F("_move_initializers_to_graph"), kind="bounded",
